@@ -102,7 +102,7 @@ def gen_case(rng, ident, force=None):
     c.ident = ident
     c.types = force or rng.weighted([('nn', 5), ('on', 3), ('ss', 2), ('ll', 2), ('n', 2), ('ww', 2)])
     c.method, argtys = TYPES[c.types]
-    nalts = rng.weighted([(1, 5), (2, 3)])     # three or more alternatives do not parse (recorded in DESIGN.md)
+    nalts = rng.weighted([(1, 5), (2, 3), (3, 1)])     # the documented disjunctive form has any number of alternatives
     use_guard = rng.chance(1, 3) and 'n' in argtys[:1] + argtys[1:2] and c.types != 'ww'
     guard_pos = None
     if use_guard:
@@ -299,6 +299,12 @@ def gen_cases(seed, n):
                  [[('P', Pat('&(ka::A..=ka::B)', 'r0-1')), ('P', W_)], [('P', Pat('&(kb::A..=kb::B)', 'r2-3')), ('P', W_)]],
                  [[('P', W_), ('P', Pat('&kb::B', 'l3'))], [('P', W_), ('P', Pat('&ka::B', 'l1'))]],
                  [[('P', Pat('&ka::A | &kb::A', 'o[l0,l2]')), ('P', Pat('&(ka::B..=kb::A)', 'r1-2'))]]):
+        c = Case(); c.ident = f"k{k}"; c.types = 'nn'; c.method = 'm_nn'; c.guard = None; c.alts = alts
+        cases.append(c); k += 1
+    # the documented disjunctive form with three and four alternatives
+    L_ = lambda n: Pat(str(n), f"l{n}")
+    for alts in ([[('P', L_(1)), ('P', L_(2))], [('P', L_(3)), ('P', L_(0))], [('P', L_(2)), ('P', L_(2))]],
+                 [[('P', L_(0)), ('P', W_)], [('P', L_(1)), ('P', W_)], [('P', L_(2)), ('P', W_)], [('P', W_), ('P', L_(3))]]):
         c = Case(); c.ident = f"k{k}"; c.types = 'nn'; c.method = 'm_nn'; c.guard = None; c.alts = alts
         cases.append(c); k += 1
     # bindings named like the macro's own identifiers next to an eq!/ne! operand
